@@ -570,7 +570,8 @@ func Run(ctx *core.Ctx) {
 		scs = append(scs, scenario{initial: in, faults: fs, big: strings.HasSuffix(in, "big") || r.Intn(2) == 0})
 	}
 	var wg sync.WaitGroup
-	wg.Add(4)
+	wg.Add(5)
+	go func() { defer wg.Done(); runStalledSwitch(ctx, bin) }()
 	go func() { defer wg.Done(); runStarValue(ctx, bin) }()
 	go func() { defer wg.Done(); runSwitchLeader(ctx, bin) }()
 	go func() { defer wg.Done(); runTTLAcrossOutage(ctx, bin, true) }()
